@@ -2,6 +2,7 @@
 the docs say (shape A)."""
 import collections
 import itertools
+import re
 
 from pgmc import spaces
 from pgmc.drive import (BudgetExceeded, ForestView, Monitor, build,
@@ -75,11 +76,13 @@ def plan(tier, seed):
                                                      win=(seed, 12)),
                 dict(fam="samebase", nmax=5),
                 dict(fam="greedy", nmax=5), dict(fam="collision"),
+                dict(fam="suffix"),
                 dict(fam="imported", nmax=4)]
     return [dict(fam="items", n=1, nmax=5), dict(fam="items", n=2, nmax=5),
             dict(fam="samebase", nmax=5),
             dict(fam="items", n=3, nmax=4), dict(fam="greedy", nmax=6),
-            dict(fam="collision"), dict(fam="imported", nmax=5)]
+            dict(fam="collision"), dict(fam="suffix"),
+            dict(fam="imported", nmax=5)]
 
 
 def units(tier, seed):
@@ -108,6 +111,8 @@ def units(tier, seed):
             for i in range(0, n, 4):
                 out.append(dict(fam="imported", nmax=row["nmax"],
                                 idx=list(range(i, min(n, i + 4)))))
+        elif row["fam"] == "suffix":
+            out.append(dict(fam="suffix"))
         else:
             out.append(dict(fam="collision"))
     return out
@@ -358,6 +363,80 @@ def greedy_unit(u):
     return r
 
 
+# rule and separator names that contain the suffixes the helper rules are
+# named with (x_0, x_1, x_opt): helper rules are shared by NAME
+SUFFIX_NAMES = [
+    "S: a_0* z a_1*;", "S: a_1* z a_0*;", "S: a_0+ z a_1*;", "S: a_1+ z a_0+;",
+    "S: a_0? z a_opt*;", "S: a_opt? z a_0+;",
+    "S: a_0+[c_0] z a_0+[c_1];", "S: a_0*[c_1] z a_0+[c_0];",
+    "S: a_1+[c_0] z a_1*[c_1];", "S: a_0_c_0+ z a_0+[c_0];",
+]
+SUFFIX_TERMS = ('terminals\na_0: "a";\na_1: "b";\na_opt: "o";\n'
+                'a_0_c_0: "q";\nc_0: ",";\nc_1: ";";\nz: "z";\n')
+
+
+def suffix_unit():
+    """language of the sugared grammar vs the chart of the documented
+    expansion (helper rules written out under names that cannot clash)"""
+    mon = Monitor()
+    judge = Judge(PROP, KNOWN)
+    st = collections.Counter()
+    lex = {"a_0": ("s", "a"), "a_1": ("s", "b"), "a_opt": ("s", "o"),
+           "a_0_c_0": ("s", "q"), "c_0": ("s", ","), "c_1": ("s", ";"),
+           "z": ("s", "z")}
+    inputs = spaces.strings("abo,;zq", 4)
+    for body in SUFFIX_NAMES:
+        items = body[3:-1].split()
+        prods, rhs = [], []
+        for k, it in enumerate(items):
+            m = re.match(r"(\w+?)([*+?])?(?:\[(\w+)\])?$", it)
+            base, op, sep = m.group(1), m.group(2), m.group(3)
+            if not op:
+                rhs.append(base)
+                continue
+            h = f"H{k}"
+            rhs.append(h)
+            if op == "?":
+                prods += [(h, (base,)), (h, ())]
+            else:
+                one = f"H{k}p"
+                step = (one, sep, base) if sep else (one, base)
+                prods += [(one, step), (one, (base,))]
+                prods += [(h, (one,))] + ([(h, ())] if op == "*" else [])
+        prods = [("S", tuple(rhs))] + prods
+        ref = CharRef(prods, "S", lex, ws="")
+        text = body + "\n" + SUFFIX_TERMS
+        for kind in ("lr", "glr"):
+            p = build_or_name(kind, text, mon, (body, kind), {})
+            if isinstance(p, str):
+                judge.deviation("SUGAR", f"suffix/{kind}", body, "",
+                                "grammar with suffix-like names does not "
+                                "construct", {"outcome": p},
+                                {"grammar": text, "parser": kind})
+                continue
+            for s_ in inputs:
+                o = parse(p, s_, mon)
+                st["evaluations"] += 1
+                sent = ref.analyse(s_).sentence
+                if sent:
+                    st["nontrivial"] += 1
+                if o.kind == "budget":
+                    continue
+                if sent != (o.kind == "ok"):
+                    judge.deviation("SUGAR-LANGUAGE", f"suffix/{kind}", body,
+                                    s_, "language differs from the documented "
+                                    "expansion (names containing helper "
+                                    "suffixes)",
+                                    {"accepted": o.kind, "sentence": sent},
+                                    {"grammar": text, "parser": kind,
+                                     "options": {"ws": ""}, "input": s_})
+    r = judge.result()
+    r.update(st)
+    r.update(states=len(mon.states), transitions=mon.transitions,
+             traces=mon.traces, samples=[{"suffix_names": len(SUFFIX_NAMES)}])
+    return r
+
+
 COLLISIONS = [
     ("S: a+ a_1;\na_1: y;\n", "S: a_ONE U;\n@collect\na_ONE: a_ONE a | a;\nU: y;\n"),
     ("S: a* a_0;\na_0: y;\n", "S: a_ZERO U;\na_ZERO: a_ONE {nops} | EMPTY;\n"
@@ -457,6 +536,8 @@ def run_unit(u):
         return items_unit(u)
     if u["fam"] == "greedy":
         return greedy_unit(u)
+    if u["fam"] == "suffix":
+        return suffix_unit()
     return collision_unit()
 
 
